@@ -1,5 +1,6 @@
 /- line-protocol handlers for the PE model (used by C01, C02, C03, C05, C08, C11) -/
 import Relic.Model.PE
+import Relic.Spec.PageHashes
 namespace Relic.Driver.PE
 open Relic Relic.PE
 
@@ -38,6 +39,18 @@ partial def handle : List String → String
             | none => " pages=PANIC"
           else ""
         s!"ok stream={toHex d.hashed} {d.origSize} {d.certStart}{pages}"
+  -- C05: the SPECIFICATION's page-hash table (Relic.Spec.PageHashes), printed when the model accepts the image and the
+  -- image is in the class of `pe_page_hashes_eq_spec`; compared with the table the REAL code produced
+  | ["pagespec", fhex] =>
+    match fromHex fhex with
+    | none => "bad-op"
+    | some f =>
+      showRes (DigestPE f) fun _ =>
+        if 64 ≤ u32 f 0x3c && Spec.PageHashes.regular f then
+          match Spec.PageHashes.pageHashes f with
+          | some ps => s!"ok spec pages={showPages ps}"
+          | none => "ok spec none"
+        else "ok skip"
   | ["sign", fhex, sighex] =>
     match fromHex fhex, fromHex sighex with
     | some f, some sig =>
